@@ -13,7 +13,7 @@ missed=0
 for d in seeded/*/; do
   name=$(basename "$d")
   [ -n "$FILTER" ] && [[ "$name" != *$FILTER* ]] && continue
-  prop=$(python3 -c "import json;print(json.load(open('$d/meta.json'))['breaks_property'])")
+  prop=$(python3 -c "import json;print((lambda m: m.get('checked_by', m['breaks_property']))(json.load(open('$d/meta.json'))))")
   git -C "$WT" apply "/verif/$d/patch.diff" || { echo "MISSED  $name: patch does not apply"; missed=$((missed+1)); git -C "$WT" checkout -- .; continue; }
   log=$(mktemp)
   VERIF_NO_SEED_REGRESS=1 VERIF_REPO="$WT" ./run.sh "$prop" "$TIER" > "$log" 2>&1; rc=$?
